@@ -196,6 +196,8 @@ def main(argv=None):
         for item in nf["info"].get("failing", [{"name": nf["step"]["name"]}]):
             nm = f"{nf['step']['name']}/{item['name']}"
             ob_status[nm] = "refuted"
+            item = dict(item)
+            item.setdefault("violations", item.get("violations", [item]))
             ob_detail[nm] = dict(name=nm, status="refuted", model=json.dumps(item)[:2000], task=nf["step"]["name"], time=0, native=True, witness=item)
             hit = None
             for f in findings:
